@@ -1109,7 +1109,7 @@ func execLam(x *fw.Ctx, c Case) {
 			x.Fail("A body-ran-twice route="+route, "%s entered the body %d times", src, ran)
 		}
 		switch res.Class {
-		case ref.TooFew, ref.TooMany:
+		case ref.TooFew, ref.TooMany, ref.OddKeys:
 			switch {
 			case 0 < ran:
 				x.Fail("A "+res.Class+" body-ran"+ambSig(&c), "%s: the lambda list %s does not allow %d arguments, yet the body was entered (%s)",
